@@ -54,9 +54,33 @@
 (*         `acc` is a suspend_point<void> variable of the coroutine that   *)
 (*         is REUSED: operator= merges like << (suspend_point.h:92-93); it *)
 (*         is flushed by its destructor at co_return                       *)
+(*   hs    acc << co_await cocls::self()  (self.h:16-29): the coroutine's  *)
+(*         OWN handle goes into its suspend point variable; the documented *)
+(*         pattern is `sp = co_await self(); sp << child.detach();         *)
+(*         co_await sp;`.  While the own handle is held the coroutine may  *)
+(*         not flush the variable (hf) nor finish (re rx): that would      *)
+(*         queue a running / destroyed coroutine; it has to await it (hw). *)
+(*   hy    { auto me = co_await self(); }  co_await std::suspend_always{}; *)
+(*         a hand-made yield: the own suspend point is DISCARDED (coroutine*)
+(*         mode: pushed to the back of the deque, suspend_point.h:130-135),*)
+(*         then the coroutine suspends and control returns to the resumer  *)
+(*   cd k  coro_queue::create_suspend_point([&]{prom[k]();});  discarded   *)
+(*   ca k  co_await coro_queue::create_suspend_point([&]{prom[k]();});     *)
+(*   ct k  try { create_suspend_point([&]{prom[k](); throw X;}); }         *)
+(*         catch (X) {}                         suspend_point.h:319-346    *)
 (*   re    co_return (held mutex ownership is released by its destructor,  *)
 (*         then final_awaiter, async.h:217-230)                            *)
-(* Steps of the native driver (coroutine mode off): sd, rd k, up, qd, pr k.*)
+(*   rx    throw X out of the body (locals are destroyed by the unwinding, *)
+(*         unhandled_exception async.h:247-249, then as re)                *)
+(* Steps of the native driver (coroutine mode off): sd, rd k, up, qd, pr k *)
+(* and the user-level entries into coroutine mode with a function fn that  *)
+(* makes coroutines ready (a = k: prom[k](); a = 0: body(child).detach();  *)
+(* the suspend point is discarded INSIDE fn, i.e. queued) and then         *)
+(*   ir a  coro_queue::install_queue_and_call(fn), fn returns              *)
+(*   ix a  the same, fn THROWS; the caller catches   coro_queue.h:103-111  *)
+(*   cr a  coro_queue::create_suspend_point(fn) from native code, fn       *)
+(*         returns, the returned suspend point is discarded                *)
+(*   cx a  the same, fn THROWS                  suspend_point.h:341-345    *)
 (*                                                                         *)
 (* Events <<c, i, kind, q, mode>> (q = content of the executing thread's   *)
 (* ready deque as seen at that moment, mode = (1 iff coroutine mode is on) *)
@@ -68,12 +92,23 @@
 (*   r  the nested start() called in step i has returned to c              *)
 (* for c = 0 (native): b before the library call, e after it returned (and *)
 (* after the pool has run dry), w = observation made ON the worker between *)
-(* pool tasks (its deque must be empty, coroutine mode off).               *)
+(* pool tasks (its deque must be empty, coroutine mode off);               *)
+(*   x  fn of ir/ix/cr/cx is being LEFT (return or unwinding): logged by   *)
+(*      the destructor of a local of fn; what it made ready is queued and  *)
+(*      has not run; y = the same for cr with fn returning (the entries    *)
+(*      are then withdrawn from the BACK of the deque into the returned    *)
+(*      suspend point, suspend_point.h:328-331)                            *)
+(*   h  native code holds the suspend point returned by cr                 *)
+(*   t  instead of e: the call was left by the exception thrown by fn      *)
 (*                                                                         *)
 (* Plan = "wide" replaces the free choice of steps by the fixed family     *)
 (* WideCases: long histories of one ready deque (a root detaches A         *)
 (* workers, the S-th of them detaches B more while the rest is still       *)
 (* queued; everybody else returns at once or pauses once).                 *)
+(* Plan = "self": the fixed family SelfCases of the `co_await self()`      *)
+(* pattern: a root collects A detached children and its own handle (at     *)
+(* every position) in one suspend point, awaits it and then suspends on    *)
+(* something nobody has made ready.                                        *)
 (***************************************************************************)
 EXTENDS Naturals, Sequences, FiniteSets, TLC
 
@@ -84,9 +119,9 @@ CONSTANTS N,         \* max number of coroutines ever created (ids 1..N in order
           Roots,     \* max number of coroutines spawned by native code
           NatSteps,  \* max number of freely chosen native steps
           Kinds,     \* step kinds coroutines may use
-          NatKinds,  \* step kinds native code may use, subset of {"sd","rd","up","qd"}
+          NatKinds,  \* step kinds native code may use, subset of {"sd","rd","up","qd","pr","ir","ix","cr","cx"}
           Prune,     \* TRUE: steps that are no-ops in the current state are not generated
-          Plan       \* "free" | "wide" | "wideq"
+          Plan       \* "free" | "wide" | "wideq" | "self"
 
 ASSUME M \in {0, 1}
 
@@ -118,7 +153,7 @@ VARIABLES script,   \* script[c]: steps chosen so far, c \in 0..N (0 = native dr
           thr,      \* executing thread: 0 native thread, 1 the pool's worker
           nat,      \* "idle" | "pool": the native thread waits until the pool has run dry
           acc,      \* acc[c]: handles held by c's reused suspend_point variable (array order)
-          wcase     \* Plan = "wide": the chosen case <<A, S, B, P>>
+          wcase     \* Plan = "wide": the chosen case <<A, S, B, P>>; Plan = "self": <<A, Pos, Aft, P>>
 
 vars == <<script, pc, st, mid, bind, created, stack, inst, queue, fut, parked, mtx, qu, nph,
           ev, disc, enqs, ndeq, nrd, nrs, ptasks, thr, nat, acc, wcase>>
@@ -140,6 +175,12 @@ Obs == <<"obs", 0>>
 WideCases == IF Plan = "wideq" THEN {<<10, 4, 12, 0>>, <<6, 2, 30, 1>>}      \* quick tier
              ELSE {<<10, 4, 12, 0>>, <<10, 4, 12, 1>>, <<6, 2, 30, 0>>, <<6, 2, 30, 1>>, <<14, 9, 20, 1>>,
                    <<18, 17, 18, 0>>, <<3, 3, 40, 1>>}
+(* Family of the `co_await self()` pattern: <<A, Pos, Aft, P>> = the root puts A detached children and its
+   own handle (after Pos of the children) into its suspend point variable, awaits it, then parks
+   (Aft = 1: nobody but native code may wake it), pauses (Aft = 2), yields by hand (Aft = 3) or returns
+   (Aft = 0); the children pause once first (P = 1) or return at once.  A = 4 leaves the inline array of
+   the suspend point (suspend_point.h:42) *)
+SelfCases == {w \in (1..4) \X (0..4) \X (0..3) \X (0..1) : w[2] <= w[1]}
 Last(s) == s[Len(s)]
 Front(s) == SubSeq(s, 1, Len(s) - 1)
 In(x, H) == \E j \in 1..Len(H) : H[j] = x
@@ -164,7 +205,8 @@ Init == /\ script = [c \in All |-> <<>>]
         /\ nrd = [c \in Cor |-> 0] /\ nrs = [c \in Cor |-> 0]
         /\ ptasks = <<>> /\ thr = 0 /\ nat = "idle"
         /\ acc = [c \in Cor |-> <<>>]
-        /\ wcase \in (IF Plan \in {"wide", "wideq"} THEN WideCases ELSE {<<0, 0, 0, 0>>})
+        /\ wcase \in (IF Plan \in {"wide", "wideq"} THEN WideCases
+                     ELSE IF Plan = "self" THEN SelfCases ELSE {<<0, 0, 0, 0>>})
 
 -----------------------------------------------------------------------------
 (* Transfer of control.  S, P, Mi, E, Q are the values of st, pc, mid, ev, queue after the effects
@@ -207,7 +249,9 @@ DiscardSP(c, H, S0) == DiscardSPx(c, H, S0, H)
 
 (* The suspend point is co_awaited by running coroutine c (suspend_point.h:148-183): empty ->
    await_ready, no suspension; otherwise pop the LAST handle for symmetric transfer, push the
-   remaining handles in array order, push c itself (c cannot be among H: it is running). *)
+   remaining handles in array order, push c itself UNLESS its own handle is among H (`co_await
+   self()`, step hs): the awaiting coroutine is made ready exactly once (suspend_point.h:171-182);
+   its own handle in the last place is the target of the transfer: it continues at once. *)
 AwaitSPx(c, H, S0, NB) ==
     LET E0 == EvB(c) IN
     IF H = <<>>
@@ -215,7 +259,7 @@ AwaitSPx(c, H, S0, NB) ==
            /\ nrd' = Bump(nrd, NB)
            /\ UNCHANGED <<enqs, ndeq, disc>>
       ELSE LET out == Last(H)
-               P == Front(H) \o <<c>>
+               P == IF In(c, H) THEN Front(H) ELSE Front(H) \o <<c>>
            IN /\ Resume(out, SwapTop(out), Ready(S0, H \o <<c>>), pc, [mid EXCEPT ![c] = TRUE],
                         EvS(E0, c), queue \o P, MD)
               /\ enqs' = enqs \o P /\ ndeq' = ndeq /\ nrd' = Bump(nrd, NB \o <<c>>)
@@ -235,7 +279,7 @@ NoSuspend(c) ==
 -----------------------------------------------------------------------------
 (* Which steps may be chosen *)
 
-FutKinds == {"rd", "ra", "aw", "bd", "ba", "pr", "pw", "ha", "hm"}
+FutKinds == {"rd", "ra", "aw", "bd", "ba", "pr", "pw", "ha", "hm", "cd", "ca", "ct", "ir", "ix", "cr", "cx"}
 UsedF == UNION {{script[x][j][2] : j \in {j \in 1..Len(script[x]) : script[x][j][1] \in FutKinds}} : x \in All}
 (* futures are named in order of first use (symmetry reduction) *)
 AllowedF == {k \in 1..K : \A k2 \in 1..(k - 1) : k2 \in UsedF}
@@ -248,10 +292,26 @@ WideChoice(c) ==
     ELSE IF c = wcase[2] + 1 THEN (IF i <= wcase[3] THEN <<"sd", 0>> ELSE <<"re", 0>>)
     ELSE IF wcase[4] = 1 /\ i = 1 THEN <<"pa", 0>> ELSE <<"re", 0>>
 
+(* the root of Plan = "self" *)
+SelfChoice(c) ==
+    LET i == Len(script[c]) + 1
+        A == wcase[1]
+    IN IF c = 1 THEN (IF i <= A + 1 THEN (IF i = wcase[2] + 1 THEN <<"hs", 0>> ELSE <<"hd", 0>>)
+                      ELSE IF i = A + 2 THEN <<"hw", 0>>
+                      ELSE IF i = A + 3 /\ wcase[3] # 0
+                             THEN <<(CASE wcase[3] = 1 -> "pk" [] wcase[3] = 2 -> "pa" [] OTHER -> "hy"), 0>>
+                      ELSE <<"re", 0>>)
+       ELSE IF wcase[4] = 1 /\ i = 1 THEN <<"pa", 0>> ELSE <<"re", 0>>
+
+(* c's suspend point variable holds c's own handle *)
+OwnHeld(c) == In(c, acc[c])
+
 Choices(c) ==
     IF Plan \in {"wide", "wideq"} THEN {WideChoice(c)}
-    ELSE IF Len(script[c]) >= MaxSteps THEN {<<"re", 0>>}
-    ELSE {<<"re", 0>>}
+    ELSE IF Plan = "self" THEN {SelfChoice(c)}
+    \* a coroutine holding its own handle has to await it before it may finish
+    ELSE IF Len(script[c]) >= MaxSteps THEN (IF OwnHeld(c) THEN {<<"hw", 0>>} ELSE {<<"re", 0>>})
+    ELSE (IF OwnHeld(c) THEN {} ELSE {<<"re", 0>>} \cup K0("rx", TRUE))
       \cup K0("pa", TRUE)
       \cup KS("rd", {k \in AllowedF : Prune => fut[k].s = "pend"})
       \cup KS("ra", {k \in AllowedF : Prune => fut[k].s = "pend"})
@@ -277,7 +337,11 @@ Choices(c) ==
       \cup KS("ha", {k \in AllowedF : Prune => fut[k].s = "pend"})
       \cup KS("hm", {k \in AllowedF : Prune => fut[k].s = "pend"})
       \cup K0("hd", created < N)
-      \cup K0("hw", Prune => acc[c] # <<>>) \cup K0("hf", Prune => acc[c] # <<>>)
+      \cup K0("hw", Prune => acc[c] # <<>>) \cup K0("hf", (Prune => acc[c] # <<>>) /\ ~OwnHeld(c))
+      \cup K0("hs", ~OwnHeld(c)) \cup K0("hy", TRUE)
+      \cup KS("cd", {k \in AllowedF : Prune => fut[k].s = "pend"})
+      \cup KS("ca", {k \in AllowedF : Prune => fut[k].s = "pend"})
+      \cup KS("ct", {k \in AllowedF : Prune => fut[k].s = "pend"})
 
 Can(c, s) == /\ Running /\ Top.c = c /\ st[c] = "run"
              /\ s \in Choices(c)
@@ -557,12 +621,61 @@ HoldFlush(c) ==
     /\ acc' = [acc EXCEPT ![c] = <<>>]
     /\ UNCHANGED <<bind, created, inst, fut, parked, mtx, qu, nph, ptasks, thr, nat, wcase>>
 
+(* acc << co_await cocls::self(): self::await_suspend stores the handle and returns false (no
+   suspension, self.h:19-22); await_resume wraps the handle in a suspend_point<void> (self.h:23-25) *)
+HoldSelf(c) ==
+    /\ Can(c, <<"hs", 0>>) /\ Pick(c, <<"hs", 0>>)
+    /\ Cont(c, FALSE, st, EvB(c), queue)
+    /\ acc' = [acc EXCEPT ![c] = Append(@, c)]
+    /\ UNCHANGED <<bind, created, inst, fut, parked, mtx, qu, nph, enqs, ndeq, nrd, disc, ptasks, thr, nat, wcase>>
+
+(* { auto me = co_await self(); }  co_await std::suspend_always{};  the discarded own suspend point
+   pushes the running coroutine to the back of the deque (suspend_point.h:97-99,130-135); it then
+   suspends and the resumer (flush_queue / the nested start()) goes on *)
+SelfYield(c) ==
+    /\ Can(c, <<"hy", 0>>) /\ Pick(c, <<"hy", 0>>)
+    /\ LET Q1 == Append(queue, c)
+           E1 == Append(EvB(c), <<c, pc[c] + 1, "s", Q1, MD>>)
+       IN Back([st EXCEPT ![c] = "ready"], pc, [mid EXCEPT ![c] = TRUE], E1, Q1)
+    /\ enqs' = Append(enqs, c) /\ ndeq' = ndeq /\ nrd' = Bump(nrd, <<c>>)
+    /\ UNCHANGED <<bind, created, inst, fut, parked, mtx, qu, nph, disc>>
+    /\ UNCHANGED ext
+
+(* coro_queue::create_suspend_point(fn) called by a running coroutine (suspend_point.h:322-340): fn =
+   prom[k]() with the suspend point discarded -> the released handles are pushed; the new entries are
+   then taken from the BACK of the deque into the returned suspend point, which therefore holds them in
+   REVERSE order; discarded (cd): pushed again in that order; awaited (ca): as every suspend point *)
+CreateDiscard(c, k) ==
+    /\ Can(c, <<"cd", k>>) /\ Pick(c, <<"cd", k>>)
+    /\ DiscardSP(c, Rev(PromH(k)), st)
+    /\ fut' = PromFut(k)
+    /\ UNCHANGED <<bind, created, inst, parked, mtx, qu, nph>>
+    /\ UNCHANGED ext
+
+CreateAwait(c, k) ==
+    /\ Can(c, <<"ca", k>>) /\ Pick(c, <<"ca", k>>)
+    /\ AwaitSP(c, Rev(PromH(k)), st)
+    /\ fut' = PromFut(k)
+    /\ UNCHANGED <<bind, created, inst, parked, mtx, qu, nph>>
+    /\ UNCHANGED ext
+
+(* fn throws after prom[k](): nothing is collected, the entries stay queued in push order
+   (suspend_point.h:327,334); the coroutine catches the exception and goes on *)
+CreateThrow(c, k) ==
+    /\ Can(c, <<"ct", k>>) /\ Pick(c, <<"ct", k>>)
+    /\ DiscardSP(c, PromH(k), st)
+    /\ fut' = PromFut(k)
+    /\ UNCHANGED <<bind, created, inst, parked, mtx, qu, nph>>
+    /\ UNCHANGED ext
+
 (* co_return: locals are destroyed (a held ownership releases the mutex, the next owner's suspend
    point is discarded: mutex.h:40-42), then final_awaiter::await_suspend (async.h:217-230): resolve
    the bound future, destroy the frame, symmetric transfer to the popped LAST handle; the rest is
-   pushed by the suspend point's destructor; no handle -> noop_coroutine -> back to the resumer *)
-Return(c) ==
-    /\ Can(c, <<"re", 0>>) /\ Pick(c, <<"re", 0>>)
+   pushed by the suspend point's destructor; no handle -> noop_coroutine -> back to the resumer.
+   kd = "rx": the body is left by an exception instead: the same locals are destroyed by the unwinding,
+   unhandled_exception stores the exception in the bound future (async.h:247-249), then final_suspend *)
+Finish(c, kd) ==
+    /\ Can(c, <<kd, 0>>) /\ Pick(c, <<kd, 0>>)
     /\ LET E0 == EvB(c)
            H0 == acc[c]                                   \* ~suspend_point of the reused variable: pushed
            H1 == IF M = 1 THEN MtxH(c, 1) ELSE <<>>
@@ -586,6 +699,9 @@ Return(c) ==
     /\ acc' = [acc EXCEPT ![c] = <<>>]
     /\ UNCHANGED <<bind, created, inst, parked, qu, nph, ndeq, thr, nat, wcase>>
 
+Return(c) == st[c] = "run" /\ Finish(c, "re")      \* (conjunctions: TLC then names the actions Return / Throw)
+Throw(c) == st[c] = "run" /\ Finish(c, "rx")
+
 -----------------------------------------------------------------------------
 (* install_queue_and_call frame on top of the stack (coro_queue.h:103-111; the callee is
    `h.resume()` (coro_queue.h:122-126) or the loop of suspend_now (suspend_point.h:137-141)) *)
@@ -608,13 +724,15 @@ Flush ==
     /\ UNCHANGED <<script, bind, created, inst, fut, parked, mtx, qu, nph, disc, enqs, nrd>>
     /\ UNCHANGED ext
 
-(* trailer: deque empty -> instance = prev, return to the caller (coro_queue.h:107) *)
+(* trailer: deque empty -> instance = prev, return to the caller (coro_queue.h:107); the trailer is the
+   destructor of a local (coro_queue.h:23-34,105): it runs on normal return AND when fn throws *)
 IqExit ==
     /\ stack # <<>> /\ Top.t = "iq" /\ Top.rest = <<>> /\ queue = <<>>
     /\ inst' = Top.prev
     /\ stack' = Pop
     /\ IF Len(stack) = 1 /\ thr = 0 /\ ~PoolOn
-         THEN /\ ev' = Append(ev, <<0, pc[0] + 1, "e", queue, B(Top.prev)>>)
+         \* (Top.c = 1: the frame of ix/cx, left by the exception of fn: the trailer runs during unwinding)
+         THEN /\ ev' = Append(ev, <<0, pc[0] + 1, IF Top.c = 1 THEN "t" ELSE "e", queue, B(Top.prev)>>)
               /\ pc' = [pc EXCEPT ![0] = @ + 1]
               /\ UNCHANGED <<nat, ptasks>>
          ELSE IF Len(stack) = 1 /\ thr = 0
@@ -630,7 +748,9 @@ IqExit ==
    coroutines NOW: install the queue, resume every handle in array order, flush, uninstall
    (suspend_point.h:136-142, coro_queue.h:135-137). *)
 
-NRoots == Cardinality({j \in 1..Len(script[0]) : script[0][j][1] = "sd"})
+InstKinds == {"ir", "ix", "cr", "cx"}
+NRoots == Cardinality({j \in 1..Len(script[0]) : \/ script[0][j][1] = "sd"
+                                                 \/ script[0][j][1] \in InstKinds /\ script[0][j][2] = 0})
 
 (* after its own script the native code releases whatever is still blocked, so that every coroutine
    of every program runs to completion *)
@@ -654,6 +774,11 @@ NatChoices ==
       \cup (IF "pr" \in NatKinds
               THEN {<<"pr", k>> : k \in {k \in AllowedF : Prune => (fut[k].s = "pend" /\ fut[k].w # <<>>)}}
               ELSE {})
+      \* (the pool interplay of these entries is not modelled)
+      \cup (IF PoolOn THEN {}
+            ELSE {<<kd, a>> : kd \in NatKinds \cap InstKinds,
+                             a \in {k \in AllowedF : Prune => (fut[k].s = "pend" /\ fut[k].w # <<>>)}
+                                  \cup (IF created < N /\ NRoots < Roots THEN {0} ELSE {})})
 
 NatIdle == stack = <<>> /\ nat = "idle"
 
@@ -705,6 +830,60 @@ NatQPush ==
     /\ qu' = QPushed
     /\ UNCHANGED <<created, fut, parked, mtx>>
 
+(* User-level entry into coroutine mode from native code: coro_queue::install_queue_and_call(fn)
+   (coro_queue.h:103-111) installs the queue and calls fn; fn makes the coroutines H ready (a = k:
+   prom[k](), a = 0: body(child).detach(); the suspend point is discarded in coroutine mode: queued,
+   nothing runs) and returns (ir) or THROWS (ix).  Either way the trailer drains the deque and
+   uninstalls the queue before the call is left: by return, or by the exception that the native caller
+   catches.  create_suspend_point(fn) from native code with a throwing fn (cx) is the same: its
+   install_queue_and_call frame is unwound (suspend_point.h:342-344), the collection loop is skipped. *)
+InstH(a) == IF a = 0 THEN <<Child>> ELSE PromH(a)
+
+NatInstall(kd, a) ==
+    /\ kd \in {"ir", "ix", "cx"}
+    /\ NatIdle /\ <<kd, a>> \in NatChoices
+    /\ script' = [script EXCEPT ![0] = Append(@, <<kd, a>>)]
+    /\ LET H == InstH(a)
+           E0 == Append(ev, <<0, pc[0] + 1, "b", queue, MD>>)
+       IN /\ ev' = Append(E0, <<0, pc[0] + 1, "x", queue \o H, 1>>)
+          /\ stack' = <<Frame("iq", B(kd # "ir"), <<>>, inst)>>
+          /\ inst' = TRUE
+          /\ queue' = queue \o H /\ enqs' = enqs \o H
+          /\ st' = Ready(st, H) /\ nrd' = Bump(nrd, H)
+          /\ disc' = disc \o [j \in 1..Len(H) |-> <<0, H[j], Len(E0)>>]
+    /\ created' = IF a = 0 THEN Child ELSE created
+    /\ fut' = IF a = 0 THEN fut ELSE PromFut(a)
+    /\ UNCHANGED <<pc, mid, bind, parked, mtx, qu, nph, ndeq, nrs>>
+    /\ UNCHANGED ext
+
+(* create_suspend_point(fn) from native code, fn returns (suspend_point.h:341-345,322-340): under the
+   installed queue fn makes H ready (queued), the entries are withdrawn from the BACK of the deque into
+   the suspend point (REVERSE order), the trailer finds the deque empty and uninstalls the queue; native
+   code now holds the suspend point (event h: deque empty, coroutine mode off, nothing has run) and
+   discards it: coroutine mode off -> install the queue again, resume in array order, drain
+   (suspend_point.h:136-142) *)
+NatCreate(a) ==
+    /\ NatIdle /\ <<"cr", a>> \in NatChoices
+    /\ script' = [script EXCEPT ![0] = Append(@, <<"cr", a>>)]
+    /\ LET H == InstH(a)
+           R == Rev(H)
+           E0 == Append(ev, <<0, pc[0] + 1, "b", queue, MD>>)
+           E1 == Append(E0, <<0, pc[0] + 1, "y", queue \o H, 1>>)
+           E2 == Append(E1, <<0, pc[0] + 1, "h", queue, MD>>)
+       IN /\ IF H = <<>>
+               THEN /\ ev' = Append(E2, <<0, pc[0] + 1, "e", queue, MD>>)
+                    /\ pc' = [pc EXCEPT ![0] = @ + 1]
+                    /\ UNCHANGED <<st, mid, stack, inst, queue, nrs>>
+               ELSE /\ inst' = TRUE
+                    /\ Resume(Head(R), <<Frame("iq", 0, Tail(R), inst), Frame("co", Head(R), <<>>, FALSE)>>,
+                              Ready(st, H), pc, mid, E2, queue, 1)
+          /\ nrd' = Bump(nrd, H)
+          /\ disc' = disc \o [j \in 1..Len(H) |-> <<0, H[j], Len(E0)>>]
+    /\ created' = IF a = 0 THEN Child ELSE created
+    /\ fut' = IF a = 0 THEN fut ELSE PromFut(a)
+    /\ UNCHANGED <<bind, parked, mtx, qu, nph, enqs, ndeq>>
+    /\ UNCHANGED ext
+
 (* The pool's worker (thread_pool::worker, thread_pool.h:52-66) takes the next closure.  It is an
    ordinary thread, NOT in coroutine mode: coro_queue::resume(h) / the discarded suspend point of
    fn.start(promise) install the worker thread's own ready queue, resume the coroutine and drain the
@@ -752,9 +931,10 @@ NatDone ==
 
 Next ==
     \/ NatSpawn \/ (\E k \in 1..K : NatResolve(k) \/ NatPoolResume(k)) \/ NatUnpark \/ NatQPush \/ NatEnd \/ NatDone
+    \/ (\E a \in 0..K : NatCreate(a) \/ \E kd \in InstKinds : NatInstall(kd, a))
     \/ IqNext \/ Flush \/ IqExit \/ PoolCoro \/ PoolObs \/ PoolEnd
     \/ \E c \in Cor :
-         \/ Pause(c) \/ Park(c) \/ Unpark(c) \/ Return(c)
+         \/ Pause(c) \/ Park(c) \/ Unpark(c) \/ Return(c) \/ Throw(c) \/ HoldSelf(c) \/ SelfYield(c)
          \/ SpawnDetachDiscard(c) \/ SpawnDetachAwait(c) \/ SpawnCoAwait(c)
          \/ StartNested(c) \/ StartReturn(c)
          \/ QPop(c) \/ QPushDiscard(c) \/ QPushAwait(c)
@@ -763,6 +943,7 @@ Next ==
                             \/ SpawnBoundDiscard(c, k) \/ SpawnBoundAwait(c, k)
                             \/ PoolResume(c, k) \/ PoolAwait(c, k)
                             \/ HoldProm(c, "ha", k) \/ HoldProm(c, "hm", k)
+                            \/ CreateDiscard(c, k) \/ CreateAwait(c, k) \/ CreateThrow(c, k)
          \/ \E m \in 1..M : Lock(c, m) \/ ReleaseDiscard(c, m) \/ ReleaseAwait(c, m)
 
 Spec == Init /\ [][Next]_vars
@@ -785,14 +966,16 @@ TypeOK ==
 CoroMode == stack # <<>> => inst
 
 (* a coroutine made ready by the running coroutine through a discarded suspend point executes
-   nothing before the waker's next suspension ("s") or finish ("f") event *)
+   nothing before the waker's next suspension ("s") or finish ("f") event; made ready by a native
+   function running under install_queue_and_call / create_suspend_point (waker 0): nothing before that
+   function is left ("x", "y") *)
 RunToSuspension ==
     \A r \in 1..Len(disc) :
       LET w == disc[r][1]
           d == disc[r][2]
           at == disc[r][3]
       IN \A j \in EvIdx : (j > at /\ ev[j][1] = d) =>
-            \E n \in EvIdx : n > at /\ n < j /\ ev[n][1] = w /\ ev[n][3] \in {"s", "f"}
+            \E n \in EvIdx : n > at /\ n < j /\ ev[n][1] = w /\ ev[n][3] \in {"s", "f", "x", "y"}
 
 (* Reading for programs with NESTED activations ("st"): while a child started by start() runs nested
    inside its caller, "the running coroutine" is the innermost one (README "Rizeni korutin v coro
@@ -805,7 +988,7 @@ RunToSuspensionInner ==
       LET d == disc[r][2]
           at == disc[r][3]
       IN \A j \in EvIdx : (j > at /\ ev[j][1] = d) =>
-            \E n \in EvIdx : n > at /\ n < j /\ ev[n][3] \in {"s", "f"}
+            \E n \in EvIdx : n > at /\ n < j /\ ev[n][3] \in {"s", "f", "x", "y"}
 
 (* the deque is exactly the not yet dequeued suffix of everything ever enqueued: pop_front order =
    push_back order *)
@@ -823,15 +1006,19 @@ FirstAfter(n, x) == LET s == {j \in EvIdx : j > n /\ ev[j][1] = x}
                     IN IF s = {} THEN 0 ELSE CHOOSE j \in s : \A o \in s : j <= o
 ObservedOrder ==      \* stated for neighbours in the deque; it is transitive
     \A n \in EvIdx :
-      LET q == ev[n][4] IN
+      \* (not for what create_suspend_point is about to withdraw from the deque again, event "y": those
+      \* coroutines are handed to the caller in a suspend point, whose array order the property leaves open)
+      LET q == IF ev[n][3] = "y" THEN <<>> ELSE ev[n][4] IN
       \A x \in 1..(Len(q) - 1) :
         LET fx == FirstAfter(n, q[x])
             fy == FirstAfter(n, q[x + 1])
         IN fy # 0 => (fx # 0 /\ fx < fy)
 
 (* each readying leads to exactly one resumption; a ready coroutine is held in exactly one place *)
+\* (its OWN handle in its own suspend point variable, step hs, is not a readying: it becomes one
+\* when the variable is awaited)
 Held(c) == Cardinality({i \in 1..Len(ptasks) : ptasks[i] # Obs /\ ptasks[i][2] = c})
-           + Cardinality({x \in Cor : In(c, acc[x])})
+           + Cardinality({x \in Cor \ {c} : In(c, acc[x])})
 Occ(c) == Cardinality({i \in 1..Len(queue) : queue[i] = c})
           + (IF stack # <<>> THEN Cardinality({i \in 1..Len(stack[1].rest) : stack[1].rest[i] = c}) ELSE 0)
           + Held(c)
@@ -866,11 +1053,19 @@ FullDrain ==
     \* VARIABLE its holder has neither awaited nor destroyed yet: that is the holder's decision)
     /\ stack = <<>> => (queue = <<>> /\ ~inst /\ \A c \in Cor : st[c] = "ready" => Held(c) = 1)
     \* native code, and the pool's worker between two closures, see an empty deque, coroutine mode off
-    /\ \A n \in EvIdx : ev[n][1] = 0 => (ev[n][4] = <<>> /\ ev[n][5] = (IF ev[n][3] = "w" THEN 2 ELSE 0))
+    \* (also when the call was left by an exception, "t"); inside fn of install_queue_and_call /
+    \* create_suspend_point ("x", "y") coroutine mode is on
+    /\ \A n \in EvIdx : ev[n][1] = 0 =>
+          IF ev[n][3] \in {"x", "y"} THEN ev[n][5] = 1
+          ELSE (ev[n][4] = <<>> /\ ev[n][5] = (IF ev[n][3] = "w" THEN 2 ELSE 0))
 
 (* no ready coroutine left behind; (and, thanks to the clean-up phase and the choice guards, every
    created coroutine has finished: the generated programs are deadlock free) *)
 AllDoneAtEnd == nph = "done" => (ptasks = <<>> /\ \A c \in Cor : st[c] \in {"new", "done"} /\ acc[c] = <<>>)
+
+(* the own handle is used as the specification's programs are allowed to: never flushed or destroyed
+   while its coroutine runs (guards of Choices) *)
+OwnHandleUse == \A c \in Cor : (In(c, queue) \/ \E x \in Cor \ {c} : In(c, acc[x])) => st[c] = "ready"
 
 (* every coroutine that was handed to the pool continues ON the worker, in coroutine mode *)
 OnWorkerInCoroMode == \A n \in EvIdx : ev[n][1] # 0 => ev[n][5] \in {1, 3}
